@@ -100,28 +100,52 @@ def counter_ID(ctx):
 ALLOWED_GLOBAL_WRITES = set(['EconomicObject.ID', 'Logger.log_file_handles', 'Logger.priority_cutoff', 'Parameters.SolveInitialEquilibrium'])
 
 
+# each process-wide location may be written only by the listed functions (a new writer, e.g. a reset of the ID counter in another
+# constructor, is a new way for one model's history to reach another's results)
+ALLOWED_WRITERS = {
+    'EconomicObject.ID': set(['EconomicObject.__init__']),
+    'Logger.log_file_handles': None, 'Logger.priority_cutoff': None, 'Parameters.SolveInitialEquilibrium': None,   # None: any function (logging / user switch)
+}
+
+
 def _scan_process_state(repo):
-    """every assignment to ClassName.attr (ClassName a class of the package), every `global` statement"""
+    """every assignment to ClassName.attr (ClassName a class of the package), every `global` statement, with the enclosing function"""
     found = {}
-    for mod, (path, src) in repo.files.items():
-        tree = ast.parse(src)
-        for node in ast.walk(tree):
+    writers = {}
+
+    def visit(node, where):
+        for child in ast.iter_child_nodes(node):
+            w = where
+            if isinstance(child, ast.ClassDef):
+                w = child.name
+            elif isinstance(child, (ast.FunctionDef, ast.AsyncFunctionDef)):
+                w = (where + '.' if where else '') + child.name
             tgts = []
-            if isinstance(node, ast.Assign):
-                tgts = node.targets
-            elif isinstance(node, (ast.AugAssign, ast.AnnAssign)):
-                tgts = [node.target]
-            elif isinstance(node, ast.Global):
-                found.setdefault('global ' + ','.join(node.names), []).append('%s:%d' % (mod, node.lineno))
+            if isinstance(child, ast.Assign):
+                tgts = child.targets
+            elif isinstance(child, (ast.AugAssign, ast.AnnAssign)):
+                tgts = [child.target]
+            elif isinstance(child, ast.Global):
+                found.setdefault('global ' + ','.join(child.names), []).append('%s:%d' % (mod, child.lineno))
             for t in tgts:
                 base = t
                 while isinstance(base, ast.Subscript):
                     base = base.value
                 if isinstance(base, ast.Attribute) and isinstance(base.value, ast.Name) and (base.value.id in repo.classes or base.value.id == 'Parameters'):
-                    found.setdefault('%s.%s' % (base.value.id, base.attr), []).append('%s:%d' % (mod, node.lineno))
+                    key = '%s.%s' % (base.value.id, base.attr)
+                    found.setdefault(key, []).append('%s:%d' % (mod, child.lineno))
+                    writers.setdefault(key, set()).add(where or '<module>')
+            visit(child, w)
+
+    for mod, (path, src) in repo.files.items():
+        visit(ast.parse(src), '')
     extra = sorted(k for k in found if k not in ALLOWED_GLOBAL_WRITES)
+    bad_writers = dict((k, sorted(writers[k] - ALLOWED_WRITERS[k])) for k in writers
+                       if k in ALLOWED_WRITERS and ALLOWED_WRITERS[k] is not None and writers[k] - ALLOWED_WRITERS[k])
     return [('only_the_listed_process_wide_locations_are_written', not extra,
-             'unexpected process-wide writes: %s' % dict((k, found[k]) for k in extra) if extra else 'written: %s' % sorted(found))]
+             'unexpected process-wide writes: %s' % dict((k, found[k]) for k in extra) if extra else 'written: %s' % sorted(found)),
+            ('process_wide_counters_have_no_other_writer', not bad_writers,
+             'unexpected writers: %s' % bad_writers if bad_writers else 'writers: %s' % dict((k, sorted(v)) for k, v in writers.items()))]
 
 
 P.scan('process_wide_state', _scan_process_state)
